@@ -31,6 +31,7 @@ import (
 	"time"
 
 	"github.com/codenotary/immudb/embedded/tbtree"
+	"github.com/codenotary/immudb/embedded/verifhook"
 	"github.com/codenotary/immudb/embedded/watchers"
 	"github.com/prometheus/client_golang/prometheus"
 	"github.com/prometheus/client_golang/prometheus/promauto"
@@ -605,6 +606,7 @@ func (idx *indexer) indexSince(txID uint64) error {
 		if err != nil {
 			return err
 		}
+		verifhook.Point("indexer.indexSince.afterReadTx")
 
 		txIndexedEntries := 0
 		txEntries := idx.tx.Entries()
@@ -769,6 +771,9 @@ func (idx *indexer) indexSince(txID uint64) error {
 	}
 
 	var err error
+
+	verifhook.Point("indexer.indexSince.beforeInsert")
+	verifhook.Note("indexer.bulk", txID, txID+uint64(bulkSize-1), [32]byte{})
 
 	if indexableEntries == 0 {
 		// if there are no entries to be indexed, the logical time in the tree
